@@ -158,6 +158,10 @@ func judgeC03Sound(c *core.Case, cfg *core.Config) core.Verdict {
 		case ref.Fail != nil && valueDependent[ref.Fail.Class]:
 			v.Classes = append(v.Classes, "fails:"+ref.Fail.Class)
 			v.NonTriv = true
+		case ref.Fail == nil && ref.Value == nil && (dir == "int64" || dir == "float64") && strings.Contains(msg, "(<nil>)"):
+			// the value is nil (a nil-safe chain, a nil branch): converting it fails - a value-dependent failure
+			v.Classes = append(v.Classes, "fails:nil-under-directive")
+			v.NonTriv = true
 		case sig:
 			// the two classifiers disagree: inconclusive, never a violation
 			v.Classes = append(v.Classes, "fails:classifiers-disagree")
@@ -510,6 +514,59 @@ func genC03Sound(t *rapid.T, cfg *core.Config) *core.Case {
 	return c
 }
 
+// genC03Directed: roots whose static type is exactly int64 / float64 / bool / int but whose value can be nil (nil-safe
+// chains, conditionals with a nil branch) under the matching directive, and comparisons of an integer with the
+// (float) result of `**` on two literals.
+func genC03Directed(t *rapid.T, cfg *core.Config) *core.Case {
+	spec := core.GenEnvSpec(t, "", 4)
+	b := func() *core.X { return core.Var([]string{"B", "T"}[rapid.IntRange(0, 1).Draw(t, "b")], core.TBool) }
+	ns := func(x *core.X) *core.X { x.NilSafe = true; return x }
+	i64, f64 := core.Num(core.KInt64), core.TF64
+	var x *core.X
+	dir := ""
+	switch rapid.IntRange(0, 7).Draw(t, "shape") {
+	case 0:
+		x, dir = core.Cond(b(), core.Var("I64", i64), core.LitNil(), i64), "int64"
+	case 1:
+		x, dir = core.Cond(b(), core.LitNil(), core.Var("I64", i64), i64), "int64"
+	case 2:
+		x, dir = core.Cond(b(), core.Var([]string{"F", "G"}[rapid.IntRange(0, 1).Draw(t, "f")], f64), core.LitNil(), f64), "float64"
+	case 3:
+		x, dir = ns(core.Field(core.Var("P", core.TPElem), "W", f64)), "float64"
+	case 4:
+		a := ns(core.Field(core.Var("PN", core.TPNest), "PE", core.TPElem))
+		x, dir = ns(core.Field(a, "W", f64)), "float64"
+	case 5:
+		x, dir = core.Cond(b(), core.Cond(b(), core.Var("I64", i64), core.LitNil(), i64), core.Bin("+", core.Var("I64", i64), core.LitInt(1), i64), i64), "int64"
+	default:
+		// lit ** lit is a float64 for the checker and at run time, folded or not
+		pow := core.Bin("**", core.LitInt(rapid.IntRange(0, 4).Draw(t, "pa")), core.LitInt(rapid.IntRange(0, 3).Draw(t, "pb")), f64)
+		other := []*core.X{core.LitInt(8), core.Var("I", core.TInt), core.Var("J", core.TInt), core.Len(core.Var("Xs", core.TInts))}[rapid.IntRange(0, 3).Draw(t, "po")]
+		op := rapid.SampledFrom([]string{"==", "!=", "<", ">="}).Draw(t, "pop")
+		if rapid.Bool().Draw(t, "pswap") {
+			x = core.Bin(op, other, pow, core.TBool)
+		} else {
+			x = core.Bin(op, pow, other, core.TBool)
+		}
+		if rapid.Bool().Draw(t, "pclos") {
+			x = core.Builtin("count", core.Var("Xs", core.TInts), core.Bin("==", &core.X{K: "ptr", Ty: core.TInt}, pow, core.TBool), core.TInt)
+		}
+		if rapid.Bool().Draw(t, "pdir") && x.Ty.K == core.KBool {
+			dir = "bool"
+		}
+	}
+	if rapid.IntRange(0, 3).Draw(t, "nodir") == 0 {
+		dir = ""
+	}
+	c := pcase("C03", "sound")
+	c.X, c.Env = x, spec
+	c.Source = x.Src()
+	c.P["opt"] = rapid.Bool().Draw(t, "opt")
+	c.P["ptrenv"] = rapid.IntRange(0, 3).Draw(t, "ptrenv") == 0
+	c.P["directive"] = dir
+	return c
+}
+
 func TestC03(t *testing.T) {
 	cfg, rec, done := setup(t, "C03")
 	if done {
@@ -522,5 +579,8 @@ func TestC03(t *testing.T) {
 	if !core.RunRapid(t, rec, "sound", cfg.N(25000, 500000), func(rt *rapid.T) *core.Case { return genC03Sound(rt, cfg) }) {
 		return
 	}
-	core.RunRapid(t, rec, "reject", cfg.N(25000, 500000), func(rt *rapid.T) *core.Case { return genC03Reject(rt, cfg) })
+	if !core.RunRapid(t, rec, "reject", cfg.N(25000, 500000), func(rt *rapid.T) *core.Case { return genC03Reject(rt, cfg) }) {
+		return
+	}
+	core.RunRapid(t, rec, "directed", cfg.N(1500, 30000), func(rt *rapid.T) *core.Case { return genC03Directed(rt, cfg) })
 }
